@@ -21,12 +21,12 @@ use std::time::Duration;
 
 pub struct C03;
 
-pub const LETTERS: [&str; 13] = [
+pub const LETTERS: [&str; 14] = [
 	"none",
 	"pause(0)",
-	"pause(2s)",
+	"pause(2s, OutPowi 3)",
 	"resume(0)",
-	"resume(3s)",
+	"resume(3s, InOutPowi 3)",
 	"resume_at(Delayed 2s, fade 0)",
 	"resume_at(Clock (2,0), fade 2s)",
 	"stop(0)",
@@ -35,8 +35,9 @@ pub const LETTERS: [&str; 13] = [
 	"set_volume(-6dB, 2s)",
 	"clock advances to (2,0)",
 	"clock removed",
+	"set_volume(-60dB, instant)",
 ];
-const NL: u64 = 13;
+const NL: u64 = 14;
 
 #[derive(Debug, Clone, Copy, PartialEq)]
 enum Kind {
@@ -170,7 +171,7 @@ impl Check for C03 {
 		}
 		let c = decode(idx);
 		format!(
-			"{:?} sound, shape {:?}, own start {:?}, chunk {} frames, first letter '{}', then all continuations to depth {} over the 13-letter alphabet",
+			"{:?} sound, shape {:?}, own start {:?}, chunk {} frames, first letter '{}', then all continuations to depth {} over the 14-letter alphabet",
 			c.kind,
 			c.shape,
 			c.own,
@@ -191,7 +192,7 @@ impl Check for C03 {
 		format!("{:?} {:?} {:?}", c.kind, c.shape, c.own)
 	}
 	fn rule(&self) -> String {
-		"all sequences of length <= depth over the 13-letter command alphabet (each letter followed by one callback), plus the pair family (prefix of <= 1 (quick) / <= 2 (thorough) letters, then every ordered pair of pause/resume/resume_at/stop commands of different kinds with NO callback in between, then 4 callbacks; judged against both the order of issue and the fixed kind order), x {static, streaming} x {looping DC, finite 6 frames, the same reversed (static)} x own start {immediate, delayed 2 s, clock} x chunk {1,3}; each history runs the real Box<dyn Sound> in lock-step with the 7-state reference machine. Model states = distinct (playback state, fade phase, start-time phase, volume phase, clock) tuples; non-trivial = histories that leave the Playing state".into()
+		"all sequences of length <= depth over the 14-letter command alphabet (each letter followed by one callback), plus the pair family (prefix of <= 1 (quick) / <= 2 (thorough) letters, then every ordered pair of pause/resume/resume_at/stop commands of different kinds with NO callback in between, then 4 callbacks; judged against both the order of issue and the fixed kind order), x {static, streaming} x {looping DC, finite 6 frames, the same reversed (static)} x own start {immediate, delayed 2 s, clock} x chunk {1,3}; each history runs the real Box<dyn Sound> in lock-step with the 7-state reference machine. Model states = distinct (playback state, fade phase, start-time phase, volume phase, clock) tuples; non-trivial = histories that leave the Playing state".into()
 	}
 	fn assumptions(&self) -> Vec<String> {
 		vec![
@@ -455,10 +456,10 @@ fn run_history(cfg: &Cfg, letters: &[u8], canonical: bool, ctx: &mut Ctx) {
 			}
 			2 => {
 				if dh {
-					handle.pause(tween(2.0, Easing::Linear));
+					handle.pause(tween(2.0, Easing::OutPowi(3)));
 				}
 				if dm {
-					pm.pause(2.0, Easing::Linear);
+					pm.pause(2.0, Easing::OutPowi(3));
 					if pm.state != PS::Stopped {
 						fade_cmd = Some((now, 2.0, "Paused"));
 					}
@@ -477,10 +478,10 @@ fn run_history(cfg: &Cfg, letters: &[u8], canonical: bool, ctx: &mut Ctx) {
 			}
 			4 => {
 				if dh {
-					handle.resume(tween(3.0, Easing::Linear));
+					handle.resume(tween(3.0, Easing::InOutPowi(3)));
 				}
 				if dm {
-					pm.resume(StartM::Imm, 3.0, Easing::Linear);
+					pm.resume(StartM::Imm, 3.0, Easing::InOutPowi(3));
 					if pm.state != PS::Stopped {
 						fade_cmd = Some((now, 3.0, "Playing"));
 					}
@@ -557,6 +558,12 @@ fn run_history(cfg: &Cfg, letters: &[u8], canonical: bool, ctx: &mut Ctx) {
 			11 => {
 				clock.ticks = 2;
 				clock.fraction = 0.0;
+			}
+			13 => {
+				handle.set_volume(Value::Fixed(Decibels(-60.0)), tween(0.0, Easing::Linear));
+				if pm.state != PS::Stopped {
+					vol.set(Decibels(-60.0), 0.0, Easing::Linear, SM::Imm);
+				}
 			}
 			_ => {
 				clock.exists = false;
